@@ -110,7 +110,9 @@ def text_for_lines(rng, lines, colw, font, size):
     """text whose measured width is about (lines - 0.5) column widths"""
     if lines <= 1:
         return " ".join(rng.choice(WORDS) for _ in range(rng.randint(1, 2)))[:max(1, int(colw * 8))]
-    target = (lines - 0.5) * colw
+    # mostly mid-band, sometimes just past a multiple of the column width (a few per cent of measuring
+    # error then loses a whole line)
+    target = (lines - 0.5) * colw if rng.random() < 0.6 else (lines - 1) * colw * 1.015
     t = rng.choice(WORDS)
     while pil_width_in(t, font, size) < target:
         t += " " + rng.choice(WORDS)
@@ -181,7 +183,7 @@ def gen_spec(rng):
     big = rng.random() < 0.45
     if big:
         shape = rng.choice(["scalar", "row", "matrix"])
-        body["text_font_size"] = G.shaped(rng, "text_font_size", n, nc, shape=shape)
+        body["text_font_size"] = G.shaped(rng, "text_font_size", n, nc, shape=shape, half_points=True)
         if rng.random() < 0.6:
             body["text_font"] = G.shaped(rng, "text_font", n, nc, shape=rng.choice(["scalar", "row", "matrix"]))
     # wrapping text in the non-grouping, non-key columns
